@@ -3,7 +3,7 @@ import warnings
 
 import numpy as np
 
-from numbers import Real
+from numbers import Integral, Real
 
 from . import data as dt, datasets as dts  # pylint: disable=cyclic-import
 
@@ -199,7 +199,9 @@ def wrap_in_experimental_value(operand) -> "dt.ExperimentalValue":
     """
 
     if isinstance(operand, Real):
-        return dt.Constant(operand)
+        # plain Python numbers: a narrow numpy scalar (float32, float16, int8 ...) would drag the whole
+        # calculation down to its precision, and numpy's functions do not understand Fractions
+        return dt.Constant(int(operand) if isinstance(operand, Integral) else float(operand))
     if isinstance(operand, dt.ExperimentalValue):
         return operand
     if isinstance(operand, tuple) and len(operand) == 2:
